@@ -12,10 +12,10 @@ import (
 
 var senStrPieces = []string{"a", "b", "xyz", " ", "\"", "'", "\\", "/", "//", "/*", "*/", "#", "\n", "\t", "\x01", "\x7f",
 	"<", ">", "&", "|", "`", "~", "!", "@", "$", "%", "^", "*", "(", ")", "=", "?", ";", "é", "€", "😀", " ", "\xff", "\xc3",
-	"{", "}", "[", "]", ",", ":", ".", "-", "+", "0", "1", "9", "e", "E", "_"}
+	"{", "}", "[", "]", ",", ":", ".", "-", "+", "0", "1", "9", "e", "E", "_", "\ufefb", "\uff45", "\ufeff"}
 
 var senSpecial = []string{"true", "false", "null", "True", "nul", "truex", "-", "+", "-1", "+1", "1", "0", "1.5", "1e5", "-a", "+a", ".5",
-	"0x1", "NaN", "Infinity", "a b", "a:b", "a,b", "", " ", "//", "/**/", "()", "f(1)", strings.Repeat("k", 64), strings.Repeat("k", 65)}
+	"0x1", "NaN", "Infinity", "\ufefbz", "\uff45\uff45", "\ufeffa", "a b", "a:b", "a,b", "", " ", "//", "/**/", "()", "f(1)", strings.Repeat("k", 64), strings.Repeat("k", 65)}
 
 func genSenString(r *Rng) string {
 	if r.Chance(25) {
